@@ -69,9 +69,26 @@ def prior_requests(rng, start, inc, n):
     return out
 
 
+BASES = [BASE,
+         BASE + ['--geo-scale=0.3048'],
+         BASE + ['--geo-scale=2,1'],
+         BASE + ['--geo-scale=0.5', '--geo-scale=3'],
+         BASE + ['--geo-rotate=1,10,20,30', '--geo-translate=2,0.5,0.25,1.5'],
+         ['-w', '2,0,0,0,0,0,1,.001', '--excitation-pulse=1', '-f', '10', '--medium=0,0,0'],
+         ['-w', '2,0,0,0.5,0,0,1.5,.001', '-w', '2,0,0,1.5,0.7,0,1.5,.001', '--excitation-pulse=1', '-f', '10', '--geo-scale=1.5']]
+
+
+def base_of(start, inc, n):
+    """the model behind a request, a function of the request (so that replays agree); the grid of a request does not
+    depend on the model, its units or its transformations"""
+    import hashlib
+    h = int(hashlib.sha1(repr((start, inc, n)).encode()).hexdigest()[:6], 16)
+    return BASES[h % len(BASES)] if h % 2 else BASE
+
+
 def impl_near(start, inc, n, prior=()):
     from mininec.mininec import Angle
-    r = run_main(BASE, want_mininec=True)
+    r = run_main(base_of(start, inc, n), want_mininec=True)
     m = r['m']
     m.compute()
     for pr in prior:
@@ -105,7 +122,7 @@ def prop_near(start, inc, n, coords, ne, nh, report_points=None):
 
 
 def near_argv(start, inc, n):
-    return BASE + ['--near-field=' + ','.join([repr(x) for x in start + inc] + [str(k) for k in n])]
+    return base_of(start, inc, n) + ['--near-field=' + ','.join([repr(x) for x in start + inc] + [str(k) for k in n])]
 
 
 def replay(rp):
